@@ -674,6 +674,16 @@ func (c *Fn) lt(i ssa.Value, L string, strict bool, at *ssa.BasicBlock, d int) b
 		}
 	case *ssa.Call:
 		n := ssau.CallName(v)
+		// copy(dst, src) returns min(len(dst), len(src))
+		if n == "builtin.copy" && !strict && len(v.Common().Args) == 2 {
+			for _, a := range v.Common().Args {
+				for _, le := range c.LenExprs(a, 0) {
+					if le == L {
+						return true
+					}
+				}
+			}
+		}
 		// strings.Index*, strings.LastIndex*, bytes.Index*: -1 or a position in
 		// the text (at most len for an empty separator, below len for the
 		// byte / rune / set / predicate forms)
@@ -867,6 +877,9 @@ func (c *Fn) NonNeg(i ssa.Value, at *ssa.BasicBlock) bool {
 	// min of non-negatives; max with a non-negative
 	if call, ok := i.(*ssa.Call); ok {
 		n := ssau.CallName(call)
+		if n == "builtin.copy" || n == "builtin.len" || n == "builtin.cap" {
+			return true
+		}
 		isMin := n == "builtin.min" || strings.HasSuffix(n, "/internal/utils.Min")
 		isMax := n == "builtin.max" || strings.HasSuffix(n, "/internal/utils.Max")
 		if (isMin || isMax) && len(call.Common().Args) > 0 {
